@@ -55,6 +55,9 @@ def clean_prefixes(ns_map: dict) -> dict:
     for prefix, ns in ns_map.items():
         if ns:
             prefix = prefix or None
+            if prefix is not None and not is_valid_prefix(prefix, ns):
+                continue
+
             if prefix not in result:
                 result[prefix] = ns
 
@@ -63,6 +66,18 @@ def clean_prefixes(ns_map: dict) -> dict:
         result.pop(None)
 
     return result
+
+
+def is_valid_prefix(prefix: str, uri: str) -> bool:
+    """Return whether the prefix can be declared for the uri in a document.
+
+    A prefix must be an ncname, `xmlns` can not be declared and `xml`
+    is reserved for the xml namespace.
+    """
+    if prefix == "xmlns" or not is_ncname(prefix):
+        return False
+
+    return (prefix == Namespace.XML.prefix) == (uri == Namespace.XML.uri)
 
 
 def clean_uri(namespace: str) -> str:
